@@ -126,8 +126,16 @@ def builtin_events(ctx):
             op = fn()
             if op.is_linear:
                 continue
-            x = C.random_point(op.domain, rng, positive=True)
-            d = C.random_point(op.domain, rng, positive=False)
+            # deterministic generic base point and direction (not seed dependent): entries cycle through values that stay
+            # >= 0.3 away from the kinks / poles of the catalogue (0, 1, pi/2, gamma) - a point on a kink is outside the claim
+            n = L.dim(op.domain)
+            xs = np.resize(np.array([1.3, 0.7, 1.9, 0.6, 1.35, 0.65]), n).astype(complex)
+            ds = np.resize(np.array([0.5, -1.0, 0.75, 1.0, -0.25, 0.5]), n).astype(complex)
+            if L.is_complex(op.domain):
+                xs = xs + 1j * np.resize(np.array([0.4, -0.7, 0.3]), n)
+                ds = ds + 1j * np.resize(np.array([0.5, 0.25, -1.0]), n)
+            x = L.unflat(op.domain, xs)
+            d = L.unflat(op.domain, ds)
         except Exception:
             continue
         sig = dict(opts)
